@@ -12,11 +12,15 @@ import (
 // invoked in the ordering contract's sequence, for eager and lazy-init processors.
 
 type vOP struct {
-	id   int
-	o    int
-	name string
-	log  *[]int
+	id       int
+	o        int
+	name     string
+	log      *[]int
+	decorate bool
 }
+
+// what a decorating processor puts in place of another processor component: not a post-processor itself
+type vOPProxy struct{ inner any }
 
 func (p *vOP) Naming() string { return p.name }
 func (p *vOP) PostProcessBeforeInitialization(c any, name string) (any, error) {
@@ -28,6 +32,10 @@ func (p *vOP) PostProcessBeforeInitialization(c any, name string) (any, error) {
 func (p *vOP) PostProcessAfterInitialization(c any, name string) (any, error) {
 	if name == "t" {
 		*p.log = append(*p.log, 100+p.id)
+	}
+	if p.decorate && name != "t" && name != p.name {
+		nd.Cover("a processor component decorated by an earlier processor")
+		return &vOPProxy{inner: c}, nil
 	}
 	return c, nil
 }
@@ -73,6 +81,9 @@ func VerifC12Processors() {
 		class[i] = nd.Choose(3)
 		lazy := nd.Bool()
 		base := vOP{id: i, name: "p" + vNames[i], log: &log}
+		if i == 0 && nd.Param("DECORATE", 0) == 1 {
+			base.decorate = nd.Bool()
+		}
 		if class[i] < 2 {
 			base.o = int(nd.Int64())
 		}
